@@ -422,6 +422,11 @@ func (g *G) applyBundle(o *world.Obj) {
 				o.Rules[i].Paths[0].Path = "/"
 			}
 		}
+		if o.Ann["tcp-service-port"] != "" && g.P.TLS && len(o.Rules) > 0 && g.chance("tcpdefaulttls", 30) {
+			// the default (no SNI) service of a tcp port with TLS: a rule without host and a tls entry without hosts
+			o.Rules[0].Host = ""
+			o.TLS = []world.TLS{{Secret: g.pick("tlssecret", g.secretNames())}}
+		}
 	}
 }
 
@@ -799,7 +804,7 @@ func (g *G) mutateIngress(cur *world.Obj) *world.Obj {
 					t.Hosts = append(t.Hosts, r.Host)
 				}
 			}
-			if len(t.Hosts) > 0 {
+			if len(t.Hosts) > 0 || n.Ann["tcp-service-port"] != "" {
 				n.TLS = []world.TLS{t}
 			}
 		}
